@@ -1,4 +1,5 @@
 import KitModel.Go.Prelude
+import KitModel.Generated.C11
 /-!
 Model of `events/broadcaster/broadcaster.go` as a labelled transition system.
 
@@ -20,7 +21,8 @@ repaired `Close` (CAS + close(closeCh) first, then lock/unlock, then `wg.Wait`).
 -/
 namespace Kit.Broadcaster
 
-def bufferSize : Nat := 10
+/-- `const bufferSize` as re-extracted from the source on every run (T1). -/
+def bufferSize : Nat := Kit.Generated.C11.bufferSize
 
 inductive Variant | orig | fixed
   deriving DecidableEq, Repr, Hashable
@@ -35,6 +37,7 @@ structure Entry where
   deriving DecidableEq, Repr, Hashable
 
 structure Sub where
+  id : Nat               -- eventCh.id, taken from the broadcaster's counter at subscribe time
   tag : Nat
   joinedAt : Nat
   buf : List Entry
@@ -50,12 +53,13 @@ structure Sub where
 /-- Everything pushed to this subscriber, oldest first. -/
 def Sub.seq (u : Sub) : List Entry := u.delivered ++ u.hand.toList ++ u.buf
 
-def Sub.new (tag joinedAt : Nat) : Sub :=
-  { tag, joinedAt, buf := [], hand := none, delivered := [], cancelled := false,
+def Sub.new (id tag joinedAt : Nat) : Sub :=
+  { id, tag, joinedAt, buf := [], hand := none, delivered := [], cancelled := false,
     exitClosed := false, inList := true, pc := .idle, missed := false }
 
 structure State where
-  subs : List Sub                 -- index = id (currentID = subs.length); never shrinks
+  subs : List Sub                 -- one slot per forwarder goroutine, in subscribe order; never shrinks
+  currentID : Nat                 -- b.currentID: the next id to hand out
   bc : Option (Entry × Nat)       -- lock held by a Broadcast: entry, id of the next subscriber
   closed : Bool
   closeCh : Bool
@@ -74,7 +78,7 @@ structure State where
   deriving DecidableEq, Repr, Hashable
 
 def init : State :=
-  { subs := [], bc := none, closed := false, closeCh := false, log := [], nextTicket := 0,
+  { subs := [], currentID := 0, bc := none, closed := false, closeCh := false, log := [], nextTicket := 0,
     waitB := [], retB := [], returnedT := [], nextTag := 0, waitS := [], retS := [],
     closeNew := 0, closePre := 0, closePost := 0, closeReturned := 0 }
 
@@ -182,7 +186,8 @@ def subAcquire (s : State) (k : Nat) : Option State :=
       some { s with waitS := s.waitS.eraseIdx k, retS := s.retS ++ [h] }
     else
       some { s with waitS := s.waitS.eraseIdx k, retS := s.retS ++ [h],
-                    subs := s.subs ++ [Sub.new h s.log.length] }
+                    subs := s.subs ++ [Sub.new s.currentID h s.log.length],
+                    currentID := s.currentID + 1 }
   | _, _ => none
 
 def subReturn (s : State) (h : Nat) : Option State :=
@@ -228,10 +233,32 @@ def fwdCloseExit (s : State) (i : Nat) : Option State :=
     if u.pc = .exiting then some (setSub s i { u with exitClosed := true, pc := .wantLock }) else none
   | none => none
 
+/-- The removal loop of the forwarder's deferred function: the first entry still in `eventChs`
+whose id equals the forwarder's id. -/
+def removeTarget (s : State) (id : Nat) : Option Nat :=
+  s.subs.findIdx? (fun w => w.inList && w.id == id)
+
+/-- Take the entry in slot `t` out of `eventChs`. -/
+def unlist (s : State) (t : Option Nat) : State :=
+  match t with
+  | some j =>
+    match s.subs[j]? with
+    | some w => setSub s j { w with inList := false }
+    | none => s
+  | none => s
+
+/-- The forwarder's deferred function under the lock: remove *the entry found by id* (which is the
+forwarder's own entry exactly when ids are never reused — theorem `ids_fresh` / `remove_exact`),
+unlock, `wg.Done()`.  The second branch models what the code would do if the entry found were
+somebody else's. -/
 def fwdRemove (s : State) (i : Nat) : Option State :=
   match s.subs[i]? with
   | some u =>
-    if u.pc = .wantLock ∧ s.bc = none then some (setSub s i { u with inList := false, pc := .done })
+    if u.pc = .wantLock ∧ s.bc = none then
+      if removeTarget s u.id = some i then
+        some (setSub s i { u with inList := false, pc := .done })
+      else
+        some (setSub (unlist s (removeTarget s u.id)) i { u with pc := .done })
     else none
   | none => none
 
